@@ -20,6 +20,8 @@ From Coq Require Import NArith List Lia Permutation.
 From Coq Require Import Sorting.Sorted.
 From Mtbl Require Import model.Bytes model.Order model.Heap model.Merger spec.MergeSpec proofs.OrderProofs
   proofs.HeapProofs proofs.HeapifyProofs proofs.MergerProofs proofs.MergerClosed proofs.MergerGen proofs.MergerNoMerge.
+(* source ties: the statements of the C functions the model follows (gen/Ties.v is regenerated from /repo on every run) *)
+From Mtbl Require props.Ties_C04.
 Local Open Scope N_scope.
 
 Theorem T04_merge_sources : forall (mf : bytes -> bytes -> bytes -> option bytes) (srcs : list (list entry)),
